@@ -142,7 +142,7 @@ func (r *metaRun) reload() {
 	var rest []byte
 	if err == nil {
 		rd := bytes.NewReader(buf.Bytes())
-		nr, err = fresh.ReadFrom(rd)
+		nr, err = fresh.ReadFrom(srcOf(rd))
 		rest, _ = io.ReadAll(rd)
 	}
 	if err == nil {
